@@ -465,6 +465,27 @@ def standalone_extractor(fn, rel):
     return ent, order, guard, test, idx
 
 
+ALLOWED_DECORATORS = {"property", "allowed_mesh_types", "staticmethod"}
+
+
+def check_plain_callables(node, rel):
+    """fail closed on memoising / unknown decorators and on mutable default arguments of every function defined in
+    `node` (a class or a module-level function): `@lru_cache` would hand the same mutable object to every caller, a default
+    `x=[]` / `out=RawMeshData()` is shared between calls"""
+    for fn in ast.walk(node):
+        if not isinstance(fn, (ast.FunctionDef, ast.AsyncFunctionDef)):
+            continue
+        for d in fn.decorator_list:
+            name = T.dotted(d.func) if isinstance(d, ast.Call) else T.dotted(d)
+            if name is None or name.split(".")[-1] not in ALLOWED_DECORATORS:
+                T.fail(rel, fn, "unexpected decorator on %s: %s" % (fn.name, ast.unparse(d)))
+        for dflt in list(fn.args.defaults) + [k for k in fn.args.kw_defaults if k is not None]:
+            ok = isinstance(dflt, ast.Constant) or (isinstance(dflt, ast.UnaryOp) and isinstance(dflt.operand, ast.Constant)) \
+                or (isinstance(dflt, ast.Attribute) and ast.unparse(dflt).startswith("config."))
+            if not ok:
+                T.fail(rel, fn, "mutable / computed default argument in %s: %s" % (fn.name, ast.unparse(dflt)))
+
+
 def gen():
     out_parts = []
     body = []
@@ -638,6 +659,11 @@ def gen():
     if not imp2:
         T.fail(BORD, btree, "det_3x3 is not imported from geometry.geometry")
     xent, xorder, xguard, xtest, xidx = standalone_extractor(fxb, BORD)
+    check_plain_callables(fxb, BORD)
+    check_plain_callables(vm, VOL)          # VolumeMesh with _Connectivity and _BoundaryConnectivity
+    for fnn in (f1, f2):
+        check_plain_callables(fnn, DATA)
+    check_plain_callables(fd, GEO)
     body.append("(* border.py extract_boundary_of_volume *)\n")
     body.append("Definition ex_m2b_entry (i x : nat) : nat * nat := %s.\n" % xent["map_m2b"])
     body.append("Definition ex_b2m_entry (i x : nat) : nat * nat := %s.\n" % xent["map_b2m"])
